@@ -1745,6 +1745,7 @@ class HealSparseMap(object):
 
         if in_place:
             new_map = self
+            self._n_valid = None
         else:
             new_map = HealSparseMap(cov_map=self._cov_map.copy(),
                                     sparse_map=self._sparse_map.copy(),
